@@ -222,6 +222,18 @@ pub fn strategy() -> impl Strategy<Value = Case> {
         1 => (vec(alpha(), 0..12), prop::sample::select(vec![usize::MAX, usize::MAX - 1, 1 << 40, 70_000])).prop_map(|(buf, size)| Case::Field { buf, size }),
         3 => (vec(alpha(), 16), any::<bool>()).prop_map(|(ids, big_endian)| Case::Ids { ids, big_endian }),
         1 => (vec(any::<u8>(), 16), any::<bool>()).prop_map(|(ids, big_endian)| Case::Ids { ids, big_endian }),
+        // sixteen bytes of valid text cut into four fields wherever the 4-byte boundaries fall: characters that straddle
+        // two neighbouring fields, fields that are clean only together with their neighbour
+        2 => (vec(prop::sample::select(vec!["a", "B", "é", "ß", "€", "日", "𝄞", "7", "\u{7f}"]), 16), 0usize..4, any::<bool>(), prop::option::weighted(0.3, 0usize..16)).prop_map(|(pieces, pre, big_endian, nul)| {
+            let mut text = "xyz"[..pre].to_string();
+            text.push_str(&pieces.concat());
+            let mut ids = text.into_bytes();
+            ids.truncate(16);
+            if let Some(k) = nul {
+                ids[k] = 0;
+            }
+            Case::Ids { ids, big_endian }
+        }),
     ]
 }
 
